@@ -1,4 +1,4 @@
-import Ledger.Ctrl.Controller
+import Ledger.Proofs.CtrlStore
 
 /-!
 Structural lemmas about `forgeLog`: whatever happens inside the transaction,
@@ -53,42 +53,99 @@ theorem finish_cases (s : State) (st : RunSt) (h : String) (f : Option Fault) (c
     · right; exact ⟨rfl, hc⟩
 
 /-- How an operation can end. -/
-inductive Ending (s : State) (dry : Bool) (o : Outcome) : Prop where
-  /-- tables untouched; the answer is an error, an idempotency hit, or a dry run -/
-  | unchanged (h : o.Unchanged s) (why : o.resp.err.isSome = true ∨ o.resp.hit = true ∨ dry = true)
-  /-- committed: success, not a hit, not a dry run, exactly the transaction's tables -/
-  | committed (st : RunSt) (log : Log) (hd : dry = false) (h : o.CommittedFrom st log)
+inductive Ending (strict : Bool) (s : State) (op : Op) (o : Outcome) : Prop where
+  /-- tables untouched (sequences may have advanced); the answer is an error, an
+      idempotency hit, or a dry run -/
+  | unchanged (h : o.Unchanged s) (hs : SeqLe s.seq o.state.seq)
+      (why : o.resp.err.isSome = true ∨ o.resp.hit = true ∨ op.dry = true)
+  /-- committed: `runLog` ran to completion on a transaction started from the
+      committed tables and its tables were installed; success, not a hit, not a dry run -/
+  | committed (st0 st : RunSt) (log : Log) (hn : String) (f : Option Fault) (n : Nat)
+      (hd : op.dry = false) (h0 : st0.db = s.db) (hs0 : SeqLe s.seq st0.seq)
+      (hrun : run op.now hn f (runLog strict op.kind op.ik op.ihash op.sv n) st0 = (.ok log, st))
+      (h : o.CommittedFrom st log)
 
-theorem retry_ending (strict : Bool) (op : Op) (f : Option Fault) (s : State) (st : RunSt) :
-    Ending s op.dry (retry strict op f s st) := by
+theorem failedAttempt_seq (s : State) (st : RunSt) (h : String) (f : Option Fault) (e : Err) :
+    (failedAttempt s st h f e).state.seq = st.seq := by
+  unfold failedAttempt; split <;> rfl
+
+theorem finish_seq_unchanged (s : State) (st : RunSt) (h : String) (f : Option Fault) (cf dry : Bool) (log : Log)
+    (hu : (finish s st h f cf dry log).Unchanged s) : (finish s st h f cf dry log).state.seq = st.seq := by
+  unfold finish at *
+  cases dry with
+  | true => rfl
+  | false =>
+    rw [if_neg Bool.false_ne_true] at *
+    unfold commitOrFail at *
+    split
+    · rfl
+    · split <;> rfl
+
+theorem retry_ending (strict : Bool) (op : Op) (f : Option Fault) (s : State) (st : RunSt)
+    (hst : SeqLe s.seq st.seq) :
+    Ending strict s op (retry strict op f s st) := by
   unfold retry
   split
-  · exact .unchanged rfl (Or.inl rfl)
+  · exact .unchanged rfl hst (Or.inl rfl)
   · split
-    · exact .unchanged (failedAttempt_unchanged ..) (Or.inl (failedAttempt_isError ..))
-    · rename_i log st1 _
+    · rename_i e st1 heq
+      refine .unchanged (failedAttempt_unchanged ..) ?_ (Or.inl (failedAttempt_isError ..))
+      rw [failedAttempt_seq]
+      have := run_seq op.now "t2" f (runLog strict op.kind op.ik op.ihash op.sv 2)
+        { db := s.db, seq := st.seq, n := st.n + 1, trace := st.trace ++ ["root BeginTX"] }
+      rw [heq] at this
+      exact SeqLe.trans hst this
+    · rename_i log st1 heq
+      have hseq := run_seq op.now "t2" f (runLog strict op.kind op.ik op.ihash op.sv 2)
+        { db := s.db, seq := st.seq, n := st.n + 1, trace := st.trace ++ ["root BeginTX"] }
+      rw [heq] at hseq
       rcases finish_cases s st1 "t2" f false op.dry log with h | h
-      · exact .unchanged h.1 (h.2.elim Or.inl (fun d => Or.inr (Or.inr d)))
-      · exact .committed st1 log h.1 h.2
+      · refine .unchanged h.1 ?_ (h.2.elim Or.inl (fun d => Or.inr (Or.inr d)))
+        rw [finish_seq_unchanged _ _ _ _ _ _ _ h.1]
+        exact SeqLe.trans hst hseq
+      · exact .committed { db := s.db, seq := st.seq, n := st.n + 1, trace := st.trace ++ ["root BeginTX"] }
+          st1 log "t2" f 2 h.1 rfl hst heq h.2
 
 /-- Every operation, with or without an injected fault, either leaves the
     committed tables untouched (and then answers with an error, a hit, or is a dry
-    run) or is a committed, successful, non-dry-run, non-hit write. -/
+    run) or is a committed, successful, non-dry-run, non-hit write whose tables
+    are exactly those of a complete `runLog` on the committed tables. -/
 theorem forgeLog_ending (strict : Bool) (op : Op) (f : Option Fault) (cf : Bool) (s : State) :
-    Ending s op.dry (forgeLog strict op f cf s) := by
+    Ending strict s op (forgeLog strict op f cf s) := by
   unfold forgeLog
   split
-  · exact .unchanged rfl (Or.inl rfl)
-  · split
-    · exact .unchanged rfl (Or.inl rfl)
-    · exact .unchanged rfl (Or.inr (Or.inl rfl))
-    · split
-      · split
-        · exact retry_ending strict op f s _
-        · exact .unchanged (failedAttempt_unchanged ..) (Or.inl (failedAttempt_isError ..))
-      · rename_i log st2 _
+  · exact .unchanged rfl (SeqLe.refl _) (Or.inl rfl)
+  · have hik := run_ikLookup_db op.now "t1" f op.ik op.ihash
+      { db := s.db, seq := s.seq, n := 1, trace := ["root BeginTX"] }
+    split
+    · rename_i e st1 heq
+      rw [heq] at hik
+      refine .unchanged rfl ?_ (Or.inl rfl)
+      show SeqLe s.seq st1.seq
+      rw [hik.2]; exact SeqLe.refl _
+    · rename_i log st1 heq
+      rw [heq] at hik
+      refine .unchanged rfl ?_ (Or.inr (Or.inl rfl))
+      show SeqLe s.seq st1.seq
+      rw [hik.2]; exact SeqLe.refl _
+    · rename_i st1 heq
+      rw [heq] at hik
+      have h1 : SeqLe s.seq st1.seq := by rw [hik.2]; exact SeqLe.refl _
+      split
+      · rename_i e st2 heq2
+        have hseq := run_seq op.now "t1" f (runLog strict op.kind op.ik op.ihash op.sv 1) st1
+        rw [heq2] at hseq
+        split
+        · exact retry_ending strict op f s _ (SeqLe.trans h1 hseq)
+        · refine .unchanged (failedAttempt_unchanged ..) ?_ (Or.inl (failedAttempt_isError ..))
+          rw [failedAttempt_seq]; exact SeqLe.trans h1 hseq
+      · rename_i log st2 heq2
+        have hseq := run_seq op.now "t1" f (runLog strict op.kind op.ik op.ihash op.sv 1) st1
+        rw [heq2] at hseq
         rcases finish_cases s st2 "t1" f cf op.dry log with h | h
-        · exact .unchanged h.1 (h.2.elim Or.inl (fun d => Or.inr (Or.inr d)))
-        · exact .committed st2 log h.1 h.2
+        · refine .unchanged h.1 ?_ (h.2.elim Or.inl (fun d => Or.inr (Or.inr d)))
+          rw [finish_seq_unchanged _ _ _ _ _ _ _ h.1]
+          exact SeqLe.trans h1 hseq
+        · exact .committed st1 st2 log "t1" f 1 h.1 hik.1 h1 heq2 h.2
 
 end Ledger.Ctrl
